@@ -82,11 +82,12 @@ type State struct {
 	locks  map[string]int // held locks (by key) — lock discipline tracking
 	ghost  map[string]Term
 	oldMode int
+	oldView *State // private copy of the old state while evaluating old(e): reads and (spec-local) writes go there
 	epoch   int
 }
 
 func (s *State) clone() *State {
-	n := &State{pc: s.pc, alloc: s.alloc, oldMode: s.oldMode, epoch: s.epoch}
+	n := &State{pc: s.pc, alloc: s.alloc, oldMode: s.oldMode, epoch: s.epoch, oldView: s.oldView}
 	n.cells = make(map[*Cell]Value, len(s.cells))
 	for k, v := range s.cells {
 		n.cells[k] = v
